@@ -231,12 +231,14 @@ fn gen_bursts(len: usize, count: u64, seed: u64) {
     let mut rng = Rng::new(seed);
     let mut id = 0u64;
     for cap in [1i64, 2, 3] {
-        for (ia, tti) in [(false, -1i64), (true, -1), (false, 1)] {
+        // (invalidate_all, ttl, tti): with a duration of one tick everything filled in is expired
+        // but not yet purged when the burst begins
+        for (ia, ttl, tti) in [(false, -1i64, -1i64), (true, -1, -1), (false, -1, 1), (false, 1, -1)] {
             // all sequences if they are few enough, otherwise a seeded sample of `count`
             let n = if total <= count { total } else { count };
             for j in 0..n {
                 let mut code = if total <= count { j } else { rng.below(total) };
-                let cfg = json!({"kind": "sync", "cap": cap, "ttl": -1, "tti": tti, "weigher": false,
+                let cfg = json!({"kind": "sync", "cap": cap, "ttl": ttl, "tti": tti, "weigher": false,
                     "hasher": "id", "nkeys": nkeys, "lean": false, "seed": 0});
                 let mut ops: Vec<Value> = Vec::new();
                 let mut vid = 1u32;
@@ -378,6 +380,90 @@ fn gen_batch(kind: &str, count: u64, seed: u64) {
     }
 }
 
+/// Stale nodes in an admission contest, enumerated: a full cache whose residents and whose
+/// newcomer have every combination of small popularities; then, in the far regime, one batch
+/// holding the insert of the newcomer and the invalidation of one or two residents, in every
+/// order; then sync and a lookup of every key.  While the batch is applied the invalidated
+/// keys have left the map but their nodes are still queued.
+fn gen_stale(count: u64, seed: u64) {
+    use std::io::Write;
+    let out = std::io::stdout();
+    let mut o = std::io::BufWriter::new(out.lock());
+    let mut rng = Rng::new(seed);
+    let mut all: Vec<Value> = Vec::new();
+    for (cap, weigher) in [(2u32, false), (3, false), (3, true)] {
+        let n = cap + 1;
+        let nfreq = 3u64.pow(cap) * 4;
+        // batches: the newcomer's insert and the invalidations, in every order
+        let mut batches: Vec<Vec<(bool, u32)>> = Vec::new();
+        for j in 1..=cap {
+            batches.push(vec![(true, n), (false, j)]);
+            batches.push(vec![(false, j), (true, n)]);
+            for j2 in 1..=cap {
+                if j2 != j {
+                    batches.push(vec![(true, n), (false, j), (false, j2)]);
+                    batches.push(vec![(false, j), (true, n), (false, j2)]);
+                }
+            }
+        }
+        for code0 in 0..nfreq {
+            for b in batches.iter() {
+                let mut code = code0;
+                let cfg = json!({"kind": "sync", "cap": cap, "ttl": -1, "tti": -1, "weigher": weigher,
+                    "hasher": "id", "nkeys": 4, "lean": false, "seed": 0});
+                let mut ops: Vec<Value> = Vec::new();
+                let mut vid = 1u32;
+                // the preparation is eager use (sync() after every call): the monitors of C12 and
+                // C13 then know the order in which maintenance has applied everything so far
+                for k in 1..=cap {
+                    ops.push(json!({"op": "Insert", "k": k, "v": vid, "w": 1}));
+                    ops.push(json!({"op": "Sync"}));
+                    vid += 1;
+                }
+                for k in 1..=cap {
+                    for _ in 0..(code % 3) {
+                        ops.push(json!({"op": "Get", "k": k}));
+                        ops.push(json!({"op": "Sync"}));
+                    }
+                    code /= 3;
+                }
+                for _ in 0..(code % 4) {
+                    ops.push(json!({"op": "Get", "k": n}));
+                    ops.push(json!({"op": "Sync"}));
+                }
+                ops.push(json!({"op": "Advance", "d": 1}));
+                for (ins, k) in b.iter() {
+                    if *ins {
+                        // with a weigher the newcomer weighs 2: one invalidation alone makes no room
+                        ops.push(json!({"op": "Insert", "k": k, "v": vid, "w": if weigher { 2 } else { 1 }}));
+                        vid += 1;
+                    } else {
+                        ops.push(json!({"op": "Invalidate", "k": k}));
+                    }
+                }
+                ops.push(json!({"op": "Sync"}));
+                for k in 1..=n {
+                    ops.push(json!({"op": "Get", "k": k}));
+                }
+                ops.push(json!({"op": "Sync"}));
+                all.push(json!({"cfg": cfg, "ops": ops}));
+            }
+        }
+    }
+    // everything if it is little enough, otherwise a seeded sample
+    let total = all.len() as u64;
+    let mut id = 0u64;
+    for (i, mut b) in all.into_iter().enumerate() {
+        let left = total - i as u64;
+        let want = count.saturating_sub(id);
+        if total <= count || rng.below(left) < want {
+            b["id"] = json!(id);
+            writeln!(o, "{}", b).unwrap();
+            id += 1;
+        }
+    }
+}
+
 pub fn cmd_gen(args: &[String]) {
     // gen <profile> <seed> <count> <len>
     if args[0] == "unsync-batch" || args[0] == "sync-batch" {
@@ -387,6 +473,10 @@ pub fn cmd_gen(args: &[String]) {
     }
     if args[0] == "sync-grow" {
         gen_grow(args[3].parse().unwrap(), args[2].parse().unwrap(), args[1].parse().unwrap());
+        return;
+    }
+    if args[0] == "sync-stale" {
+        gen_stale(args[2].parse().unwrap(), args[1].parse().unwrap());
         return;
     }
     if args[0] == "sync-burst" {
